@@ -218,6 +218,16 @@ def run(ctx):
         ctx.note("replayed %s: verdict %s %s" % (ctx.replay, v.get(0), ctx.judge_extra.get(0)))
         return
 
+    import os
+    focus = set(filter(None, os.environ.get("VERIF_FOCUS", "").split(",")))
+    if focus:
+        ctx.note("VERIF_FOCUS=%s: partial run, not a registered configuration" % sorted(focus))
+    else:
+        model_part(ctx)
+    replay_part(ctx, rng, focus)
+
+
+def model_part(ctx):
     # ---------------------------------------------------------------- M
     inv = ["TypeOK", "RepeatIdempotent", "DefaultIsExplicit"]
     props = ["ResultDependsOnlyOnArgs", "ResultIsFresh", "HiddenStateFrozen", "JitOnlyGrows"]
@@ -247,8 +257,13 @@ def run(ctx):
         raise core.MachineryError("race twin visible with one thread")
     ctx.exhaustive = True
 
+
+
+def replay_part(ctx, rng, focus):
     # ---------------------------------------------------------------- R: histories generated by TLC
     al = alphabet(ctx.tier)
+    if focus:
+        al = [a for a in al if a["f"] in focus or a["c"] in ("bump|dflt|f8n", "slope|dflt|f4n", "binary|dflt|f8n")]
     by_key = {(a["f"], a["p"], a["sig"]): a for a in al}
     by_c = {a["c"]: a for a in al}
     depth = ctx.pick(14, 24)
